@@ -2,7 +2,8 @@
 
 C16  to_DiGraph: with W(i) = set(modes_i) + registers of the transforms among args and keyword values, and S_q the increasing list of the
      operations i with q in W(i): one node per operation (attributes name / args / kwargs / modes as tuple), edges exactly the pairs
-     (S_q[j-1], S_q[j]) -- the relation `E` of lean/Graph.lean (Consec); acyclicity, reachability = chains sharing a wire and order on every
+     (S_q[j-1], S_q[j]) -- the relation `E` of lean/Graph.lean (Consec): lean/GridEdges.lean proves that the algorithm below (per-wire filtered
+     lists of operation indices, edges between adjacent entries) computes exactly E (edges_eq_E) and the node set (nodes_iff); acyclicity, reachability = chains sharing a wire and order on every
      wire are the Lean theorems acyclic / reach_iff_chain / topo_keeps_wire_order over that edge set.  Nothing of the program is written (C13).
 C17  match_template: the four structural prechecks raise TemplateError; graphs must be isomorphic under equal gate name AND equal mode tuple;
      a Symbol argument yields the program's value, a one-parameter expression is solved, more than one parameter is refused, repeated
